@@ -224,6 +224,7 @@ Truthy(v) == CASE v[1] = "null" -> FALSE
 IsSingularSeg(seg) == seg[1] = "child" /\ Len(seg[2]) = 1 /\ seg[2][1][1] \in {"name", "idx"}
 IsSingular(segs) == \A i \in 1..Len(segs) : IsSingularSeg(segs[i])
 HasParent(segs) == \E i \in 1..Len(segs) : segs[i][1] = "parent"
+HasDesc(segs) == \E i \in 1..Len(segs) : segs[i][1] = "desc"
 
 RECURSIVE ValuesOf(_)
 ValuesOf(ns) == IF ns = <<>> THEN <<>> ELSE (IF IsNode(Head(ns)) THEN <<NVal(Head(ns))>> ELSE <<>>) \o ValuesOf(Tail(ns))
@@ -244,7 +245,9 @@ FVal(e, c, r) ==
          LET start == IF e[2] = "cur" THEN c ELSE MkNode(<<>>, r)
              ns == EvalSegs(e[3], <<start>>, r)
              vs == ValuesOf(ns)
-         IN IF HasMark(ns, DCMark) \/ HasParent(e[3]) THEN DCV      \* parent operator inside a filter: [doc] silent
+         IN IF HasMark(ns, DCMark) \/ HasParent(e[3]) \/ HasDesc(e[3]) THEN DCV
+                 \* the value of a path with a parent operator or a recursive descent inside a filter is described
+                 \* nowhere in [doc] or [data] (one selected node: that node or a one-element array?)
             ELSE IF IsSingular(e[3]) THEN (IF vs = <<>> THEN JNull ELSE vs[1])
             ELSE IF HasMark(ns, UOMark) /\ Len(vs) >= 2 THEN DCV    \* array of values in an undetermined order
             ELSE JArr(vs)
